@@ -58,6 +58,13 @@ def run_case(rep, rng, ci, cfg, texts, recs_all):
             recs.append(stepcorr.StepRecord(solver, state, last_dt["dt"], kw, res))
 
     with tempfile.TemporaryDirectory(prefix="pyt_c17_") as td:
+        if ci % 2 == 0 and len(dev.terminals) >= 2:
+            # history form: the same device object was used before for a DRIVEN run with pinned contacts (field, bias current,
+            # terminal_psi = 0); nothing of it may be left when the undriven problem is solved next
+            names_ = [t.name for t in dev.terminals]
+            wopts = runs.make_options(td, solve_time=8 * dt_max, dt_init=dt_init, dt_max=dt_max, adaptive=True, save_every=50,
+                                      terminal_psi=0.0, output_file=td + "/driven_before.h5")
+            runs.traced_solve(dev, wopts, A=0.3, currents={names_[0]: 1.0, names_[1]: -1.0, **{n_: 0.0 for n_ in names_[2:]}})
         opts = runs.make_options(td, solve_time=cfg["steps"] * dt_max, dt_init=dt_init, dt_max=dt_max,
                                  adaptive=(np.bool_(cfg["adaptive"]) if ci % 2 else (1 if cfg["adaptive"] else 0)) if ci % 3 else cfg["adaptive"],
                                  adaptive_window=5, save_every=50, terminal_psi=None,
